@@ -80,3 +80,21 @@ Proof.
   { clear. induction st as [|p st IH]; [reflexivity|exact IH]. }
   rewrite F1, F2. cbn [fold_left sum_asize fold_right glob app filter]. reflexivity.
 Qed.
+
+(* ---------- the time range lightFill gives a chunk (start without the snapshot of the time index) ---------- *)
+Lemma light_hull_covers ts : ends_hold_max ts -> forall t, In t ts -> (t <= snd (light_hull true ts))%Z.
+Proof.
+  destruct ts as [|t1 tl]; [intros _ t []|]. intros H t Ht. specialize (H t Ht).
+  unfold light_hull. destruct (last (t1 :: tl) t1 <? t1)%Z eqn:E; cbn [snd].
+  - apply Z.ltb_lt in E. lia.
+  - apply Z.ltb_ge in E. lia.
+Qed.
+
+Lemma light_chunk_hull_ok c : ends_hold_max (c_ts c) -> hull_ok (light_chunk true c).
+Proof. intros H t Ht. cbn in Ht |- *. exact (light_hull_covers _ H t Ht). Qed.
+
+Lemma light_part_hull_ok p : Forall (fun c => ends_hold_max (c_ts c)) (p_chunks p) -> Forall hull_ok (p_chunks (light_part true p)).
+Proof.
+  intros H. unfold light_part. rewrite p_chunks_set. induction H as [|c l Hc Hl IH]; [constructor|].
+  cbn [map]. constructor; [exact (light_chunk_hull_ok c Hc)|exact IH].
+Qed.
